@@ -1,19 +1,1152 @@
-//! rpc engine (ops starting with `r`).
+//! rpc engine (C06): `renc` / `rdec` ops against `Message::encode` / `Message::decode`.
+//!
+//! Message syntax (shared with lean/Driver/RpcDrv.lean):
+//! `ping:ID:SEQ`, `pong:ID:SEQ:4|6:IP:PORT`, `findnode:ID:D,D,…`, `nodes:ID:TOTAL:REC,REC,…`,
+//! `talkreq:ID:PROTO:REQ`, `talkresp:ID:RESP` (hex fields, `-` = empty).
+//! `rdec DATA ORACLE`: ORACLE = `ITEM=RESULT,…` are the answers of the real `Enr` decoder for the
+//! record items the harness' own (independent, lenient) walk finds in DATA.
 #![allow(unused)]
 use crate::rng::Rng;
 use crate::util::*;
 use crate::{Runner, Stats};
+use discv5::verif::rpc::{
+    message_decode, message_encode, Message, Request, RequestBody, RequestId, Response, ResponseBody,
+};
+use discv5::verif::enr_decode_prefix;
+use discv5::Enr;
+use std::net::{IpAddr, Ipv4Addr, Ipv6Addr};
+use std::num::NonZeroU16;
+
+// ---------------------------------------------------------------------------------------------
+// independent mini RLP (written against the RLP specification, not against alloy-rlp)
+
+mod mini {
+    fn be(b: &[u8]) -> Option<usize> {
+        if b.len() > 8 {
+            return None;
+        }
+        Some(b.iter().fold(0usize, |a, x| (a << 8) | *x as usize))
+    }
+
+    /// Lenient split of the first item: (is_list, header length, payload length).  No canonical
+    /// form checks; `None` when the buffer is too short for what the header announces.
+    pub fn split(buf: &[u8]) -> Option<(bool, usize, usize)> {
+        let b = *buf.first()?;
+        let (list, hl, pl) = match b {
+            0..=0x7f => (false, 0, 1),
+            0x80..=0xb7 => (false, 1, (b - 0x80) as usize),
+            0xb8..=0xbf => {
+                let n = (b - 0xb7) as usize;
+                (false, 1 + n, be(buf.get(1..1 + n)?)?)
+            }
+            0xc0..=0xf7 => (true, 1, (b - 0xc0) as usize),
+            _ => {
+                let n = (b - 0xf7) as usize;
+                (true, 1 + n, be(buf.get(1..1 + n)?)?)
+            }
+        };
+        if buf.len() < hl.checked_add(pl)? {
+            return None;
+        }
+        Some((list, hl, pl))
+    }
+
+    pub struct Item<'a> {
+        pub list: bool,
+        pub payload: &'a [u8],
+        pub whole: &'a [u8],
+    }
+
+    /// All items of a payload (lenient); `None` if some item does not fit.
+    pub fn items(mut p: &[u8]) -> Option<Vec<Item<'_>>> {
+        let mut v = Vec::new();
+        while !p.is_empty() {
+            let (list, hl, pl) = split(p)?;
+            v.push(Item { list, payload: &p[hl..hl + pl], whole: &p[..hl + pl] });
+            p = &p[hl + pl..];
+        }
+        Some(v)
+    }
+
+    pub fn uint_of(b: &[u8]) -> Option<u128> {
+        if b.len() > 16 {
+            return None;
+        }
+        Some(b.iter().fold(0u128, |a, x| (a << 8) | *x as u128))
+    }
+
+    fn trimmed(n: u64) -> Vec<u8> {
+        let b = n.to_be_bytes();
+        let k = b.iter().position(|x| *x != 0).unwrap_or(8);
+        b[k..].to_vec()
+    }
+
+    pub fn header(list: bool, len: usize) -> Vec<u8> {
+        let (short, long) = if list { (0xc0u8, 0xf7u8) } else { (0x80, 0xb7) };
+        if len < 56 {
+            vec![short + len as u8]
+        } else {
+            let t = trimmed(len as u64);
+            let mut v = vec![long + t.len() as u8];
+            v.extend_from_slice(&t);
+            v
+        }
+    }
+
+    pub fn bytes(b: &[u8]) -> Vec<u8> {
+        if b.len() == 1 && b[0] < 0x80 {
+            return b.to_vec();
+        }
+        let mut v = header(false, b.len());
+        v.extend_from_slice(b);
+        v
+    }
+
+    pub fn uint(n: u64) -> Vec<u8> {
+        bytes(&trimmed(n))
+    }
+
+    pub fn list(payload: &[u8]) -> Vec<u8> {
+        let mut v = header(true, payload.len());
+        v.extend_from_slice(payload);
+        v
+    }
+}
+
+// ---------------------------------------------------------------------------------------------
+// message syntax
+
+fn comma(s: &str) -> Vec<&str> {
+    if s == "-" {
+        Vec::new()
+    } else {
+        s.split(',').collect()
+    }
+}
+
+fn show_list(v: Vec<String>) -> String {
+    if v.is_empty() {
+        "-".into()
+    } else {
+        v.join(",")
+    }
+}
+
+fn parse_msg(s: &str) -> Option<Message> {
+    let f: Vec<&str> = s.split(':').collect();
+    let id = RequestId(unhx(f.get(1)?)?);
+    Some(match f.as_slice() {
+        ["ping", _, seq] => Message::Request(Request { id, body: RequestBody::Ping { enr_seq: seq.parse().ok()? } }),
+        ["pong", _, seq, fam, ip, port] => {
+            let ipb = unhx(ip)?;
+            let ip = if *fam == "4" {
+                IpAddr::V4(Ipv4Addr::from(<[u8; 4]>::try_from(ipb).ok()?))
+            } else {
+                IpAddr::V6(Ipv6Addr::from(<[u8; 16]>::try_from(ipb).ok()?))
+            };
+            Message::Response(Response {
+                id,
+                body: ResponseBody::Pong {
+                    enr_seq: seq.parse().ok()?,
+                    ip,
+                    port: NonZeroU16::new(port.parse().ok()?)?,
+                },
+            })
+        }
+        ["findnode", _, ds] => {
+            let mut distances = Vec::new();
+            for d in comma(ds) {
+                distances.push(d.parse().ok()?);
+            }
+            Message::Request(Request { id, body: RequestBody::FindNode { distances } })
+        }
+        ["nodes", _, total, recs] => {
+            let mut nodes = Vec::new();
+            for r in comma(recs) {
+                let b = unhx(r)?;
+                let e = enr_decode_prefix(&b)?;
+                if alloy_rlp::encode(&e) != b {
+                    return None;
+                }
+                nodes.push(e);
+            }
+            Message::Response(Response { id, body: ResponseBody::Nodes { total: total.parse().ok()?, nodes } })
+        }
+        ["talkreq", _, p, r] => {
+            Message::Request(Request { id, body: RequestBody::Talk { protocol: unhx(p)?, request: unhx(r)? } })
+        }
+        ["talkresp", _, r] => Message::Response(Response { id, body: ResponseBody::Talk { response: unhx(r)? } }),
+        _ => return None,
+    })
+}
+
+fn show_msg(m: &Message) -> String {
+    match m {
+        Message::Request(Request { id, body }) => {
+            let id = hx(&id.0);
+            match body {
+                RequestBody::Ping { enr_seq } => format!("ping:{id}:{enr_seq}"),
+                RequestBody::FindNode { distances } => {
+                    format!("findnode:{id}:{}", show_list(distances.iter().map(|d| d.to_string()).collect()))
+                }
+                RequestBody::Talk { protocol, request } => format!("talkreq:{id}:{}:{}", hx(protocol), hx(request)),
+            }
+        }
+        Message::Response(Response { id, body }) => {
+            let id = hx(&id.0);
+            match body {
+                ResponseBody::Pong { enr_seq, ip, port } => match ip {
+                    IpAddr::V4(a) => format!("pong:{id}:{enr_seq}:4:{}:{}", hx(&a.octets()), port.get()),
+                    IpAddr::V6(a) => format!("pong:{id}:{enr_seq}:6:{}:{}", hx(&a.octets()), port.get()),
+                },
+                ResponseBody::Nodes { total, nodes } => format!(
+                    "nodes:{id}:{total}:{}",
+                    show_list(nodes.iter().map(|e| hx(&alloy_rlp::encode(e))).collect())
+                ),
+                ResponseBody::Talk { response } => format!("talkresp:{id}:{}", hx(response)),
+            }
+        }
+    }
+}
+
+fn kind_of(m: &Message) -> &'static str {
+    match m {
+        Message::Request(r) => match r.body {
+            RequestBody::Ping { .. } => "ping",
+            RequestBody::FindNode { .. } => "findnode",
+            RequestBody::Talk { .. } => "talkreq",
+        },
+        Message::Response(r) => match r.body {
+            ResponseBody::Pong { .. } => "pong",
+            ResponseBody::Nodes { .. } => "nodes",
+            ResponseBody::Talk { .. } => "talkresp",
+        },
+    }
+}
+
+fn err_name(e: &str) -> &'static str {
+    let table: &[(&str, &str)] = &[
+        ("InputTooShort", "too-short"),
+        ("NonCanonicalSingleByte", "non-canonical-byte"),
+        ("NonCanonicalSize", "non-canonical-size"),
+        ("LeadingZero", "leading-zero"),
+        ("Overflow", "overflow"),
+        ("UnexpectedList", "unexpected-list"),
+        ("UnexpectedString", "unexpected-string"),
+        ("UnexpectedLength", "unexpected-length"),
+        ("Custom(\"Invalid format of header\")", "header"),
+        ("Custom(\"Reject the extra data\")", "extra-data"),
+        ("Custom(\"Invalid ID length\")", "id-length"),
+        ("Custom(\"Payload should be empty\")", "not-empty"),
+        ("Custom(\"Incorrect List Length\")", "ip-length"),
+        ("Custom(\"PONG response port number invalid\")", "zero-port"),
+        ("Custom(\"FINDNODE request distance invalid\")", "distance"),
+        ("Custom(\"Payload size is smaller than payload_length\")", "size-mismatch"),
+        ("Custom(\"Unknown RPC message type\")", "unknown-type"),
+    ];
+    for (k, v) in table {
+        if e.starts_with(k) {
+            return v;
+        }
+    }
+    "enr"
+}
+
+// ---------------------------------------------------------------------------------------------
+// independent reference: spec layout of a message, folding rule, strictness clauses
+
+/// `type ‖ rlp-list[fields in spec order]`, built with the mini encoder.
+fn ref_encode(m: &Message) -> Vec<u8> {
+    let (ty, fields): (u8, Vec<u8>) = match m {
+        Message::Request(Request { id, body }) => {
+            let mut f = mini::bytes(&id.0);
+            match body {
+                RequestBody::Ping { enr_seq } => {
+                    f.extend(mini::uint(*enr_seq));
+                    (1, f)
+                }
+                RequestBody::FindNode { distances } => {
+                    let inner: Vec<u8> = distances.iter().flat_map(|d| mini::uint(*d)).collect();
+                    f.extend(mini::list(&inner));
+                    (3, f)
+                }
+                RequestBody::Talk { protocol, request } => {
+                    f.extend(mini::bytes(protocol));
+                    f.extend(mini::bytes(request));
+                    (5, f)
+                }
+            }
+        }
+        Message::Response(Response { id, body }) => {
+            let mut f = mini::bytes(&id.0);
+            match body {
+                ResponseBody::Pong { enr_seq, ip, port } => {
+                    f.extend(mini::uint(*enr_seq));
+                    match ip {
+                        IpAddr::V4(a) => f.extend(mini::bytes(&a.octets())),
+                        IpAddr::V6(a) => f.extend(mini::bytes(&a.octets())),
+                    }
+                    f.extend(mini::uint(port.get() as u64));
+                    (2, f)
+                }
+                ResponseBody::Nodes { total, nodes } => {
+                    f.extend(mini::uint(*total));
+                    let inner: Vec<u8> = nodes.iter().flat_map(|e| alloy_rlp::encode(e)).collect();
+                    f.extend(mini::list(&inner));
+                    (4, f)
+                }
+                ResponseBody::Talk { response } => {
+                    f.extend(mini::bytes(response));
+                    (6, f)
+                }
+            }
+        }
+    };
+    let mut v = vec![ty];
+    v.extend(mini::list(&fields));
+    v
+}
+
+/// What a decoder has to return for an encoded `ip`: IPv4-mapped / -compatible addresses fold to
+/// IPv4, except `::1`.
+fn folded(ip: IpAddr) -> IpAddr {
+    match ip {
+        IpAddr::V4(_) => ip,
+        IpAddr::V6(a) => {
+            let o = a.octets();
+            let mut one = [0u8; 16];
+            one[15] = 1;
+            if o == one {
+                return ip;
+            }
+            let zeros = o[..10].iter().all(|x| *x == 0);
+            let tag = (o[10], o[11]);
+            if zeros && (tag == (0, 0) || tag == (0xff, 0xff)) {
+                IpAddr::V4(Ipv4Addr::new(o[12], o[13], o[14], o[15]))
+            } else {
+                ip
+            }
+        }
+    }
+}
+
+fn expected_after_roundtrip(m: &Message) -> Message {
+    match m {
+        Message::Response(Response { id, body: ResponseBody::Pong { enr_seq, ip, port } }) => {
+            Message::Response(Response {
+                id: id.clone(),
+                body: ResponseBody::Pong { enr_seq: *enr_seq, ip: folded(*ip), port: *port },
+            })
+        }
+        _ => m.clone(),
+    }
+}
+
+/// Which clause of the property forbids accepting this message value (if any).
+fn forbidden_value(m: &Message) -> Option<&'static str> {
+    let (id, dist) = match m {
+        Message::Request(r) => (
+            &r.id,
+            match &r.body {
+                RequestBody::FindNode { distances } => distances.iter().any(|d| *d > 256),
+                _ => false,
+            },
+        ),
+        Message::Response(r) => (&r.id, false),
+    };
+    if id.0.len() > 8 {
+        Some("accepted-id-gt-8")
+    } else if dist {
+        Some("accepted-distance-gt-256")
+    } else {
+        None
+    }
+}
+
+fn record_valid(item: &[u8]) -> bool {
+    match enr_decode_prefix(item) {
+        Some(e) => e.verify(),
+        None => false,
+    }
+}
+
+/// Strictness clauses re-checked on the *input bytes* of an accepted message.
+fn strict_violations(data: &[u8]) -> Vec<&'static str> {
+    let mut v = Vec::new();
+    if data.len() < 2 {
+        v.push("accepted-truncated");
+        return v;
+    }
+    let Some((list, hl, pl)) = mini::split(&data[1..]) else {
+        v.push("accepted-truncated");
+        return v;
+    };
+    if !list {
+        v.push("accepted-non-list");
+        return v;
+    }
+    if 1 + hl + pl != data.len() {
+        v.push("accepted-with-trailing-bytes");
+    }
+    let Some(fields) = mini::items(&data[1 + hl..1 + hl + pl]) else {
+        v.push("accepted-truncated");
+        return v;
+    };
+    match fields.first() {
+        Some(id) if !id.list => {
+            if id.payload.len() > 8 {
+                v.push("accepted-id-gt-8");
+            }
+        }
+        _ => v.push("accepted-malformed-id"),
+    }
+    match data[0] {
+        2 => {
+            if let Some(ip) = fields.get(2) {
+                if ip.list || (ip.payload.len() != 4 && ip.payload.len() != 16) {
+                    v.push("accepted-bad-ip-length");
+                }
+            }
+            if let Some(port) = fields.get(3) {
+                if !port.list && mini::uint_of(port.payload) == Some(0) {
+                    v.push("accepted-zero-port");
+                }
+            }
+        }
+        3 => {
+            if let Some(ds) = fields.get(1) {
+                if let Some(items) = mini::items(ds.payload) {
+                    if items.iter().any(|d| d.list || mini::uint_of(d.payload).map_or(true, |x| x > 256)) {
+                        v.push("accepted-distance-gt-256");
+                    }
+                }
+            }
+        }
+        4 => {
+            // every item of the record list -- and every further item the decoder may have taken
+            // for a record -- has to be a valid signed record
+            let mut recs: Vec<&[u8]> = Vec::new();
+            if let Some(l) = fields.get(2) {
+                if let Some(items) = mini::items(l.payload) {
+                    recs.extend(items.iter().map(|i| i.whole));
+                }
+            }
+            for extra in fields.iter().skip(3) {
+                recs.push(extra.whole);
+            }
+            if recs.iter().any(|r| !record_valid(r)) {
+                v.push("accepted-invalid-record");
+            }
+        }
+        _ => {}
+    }
+    v
+}
+
+/// The harness' own lenient walk over a NODES message: the items it hands to the real record
+/// decoder, with the answers (`bad` or the canonical re-encoding).
+fn oracle_entries(data: &[u8]) -> Vec<(Vec<u8>, Option<Vec<u8>>)> {
+    let mut out = Vec::new();
+    (|| {
+        if data.len() < 2 || data[0] != 4 {
+            return None;
+        }
+        let (_, hl, _) = mini::split(&data[1..])?;
+        let mut p = &data[1 + hl..];
+        for _ in 0..2 {
+            // id, total
+            let (_, h, l) = mini::split(p)?;
+            p = &p[h + l..];
+        }
+        let (_, h, _) = mini::split(p)?;
+        p = &p[h..];
+        while !p.is_empty() && out.len() < 40 {
+            let (_, h, l) = mini::split(p)?;
+            let item = &p[..h + l];
+            let ans = enr_decode_prefix(item).map(|e| alloy_rlp::encode(&e));
+            let adv = ans.as_ref().map(|a| a.len());
+            out.push((item.to_vec(), ans));
+            match adv {
+                Some(a) if a > 0 && a <= p.len() => p = &p[a..],
+                _ => break,
+            }
+        }
+        Some(())
+    })();
+    out
+}
+
+fn oracle_for(data: &[u8]) -> String {
+    let e = oracle_entries(data);
+    if e.is_empty() {
+        return "-".into();
+    }
+    e.iter()
+        .map(|(i, a)| format!("{}={}", hx(i), a.as_ref().map(|a| hx(a)).unwrap_or_else(|| "bad".into())))
+        .collect::<Vec<_>>()
+        .join(",")
+}
+
+fn rdec_line(data: &[u8]) -> String {
+    format!("rdec {} {}", hx(data), oracle_for(data))
+}
+
+// ---------------------------------------------------------------------------------------------
+// runner
 
 #[derive(Default)]
 pub struct RpcRunner;
 
 impl Runner for RpcRunner {
     fn reset(&mut self) {}
-    fn step(&mut self, _line: &str, out: &mut Vec<String>, _stats: &mut Stats) {
-        out.push("bad-op".into());
+
+    fn step(&mut self, line: &str, out: &mut Vec<String>, stats: &mut Stats) {
+        let t: Vec<&str> = line.split(' ').collect();
+        match t.as_slice() {
+            ["renc", msg] => {
+                let Some(m) = parse_msg(msg) else {
+                    out.push("bad-op".into());
+                    return;
+                };
+                stats.bump(&format!("renc.{}", kind_of(&m)));
+                let m2 = m.clone();
+                let Some(bytes) = no_panic(move || message_encode(m2)) else {
+                    out.push("!MON C06 encode-panic".into());
+                    out.push("panic".into());
+                    return;
+                };
+                if bytes != ref_encode(&m) {
+                    out.push(format!("!MON C06 layout-mismatch {}", hx(&bytes)));
+                }
+                let b2 = bytes.clone();
+                match no_panic(move || message_decode(&b2)) {
+                    None => out.push("!MON C06 decode-panic-on-own-encoding".into()),
+                    Some(Ok(d)) => {
+                        if let Some(clause) = forbidden_value(&m) {
+                            out.push(format!("!MON C06 {clause} {}", hx(&bytes)));
+                        } else if d != expected_after_roundtrip(&m) {
+                            out.push(format!("!MON C06 roundtrip-mismatch {}", show_msg(&d)));
+                        } else {
+                            stats.bump("renc.roundtrip-ok");
+                        }
+                    }
+                    Some(Err(e)) => {
+                        if forbidden_value(&m).is_none() {
+                            out.push(format!("!MON C06 roundtrip-rejected {}", err_name(&e)));
+                        } else {
+                            stats.bump("renc.rejected-as-required");
+                        }
+                    }
+                }
+                out.push(hx(&bytes));
+            }
+            ["rdec", data, _oracle] => {
+                let Some(data) = unhx(data) else {
+                    out.push("bad-op".into());
+                    return;
+                };
+                // assumption of the never-panics theorem about the record decoder
+                for (item, ans) in oracle_entries(&data) {
+                    if let Some(a) = ans {
+                        if a.is_empty() || a.len() > item.len() {
+                            out.push("!MON C06 record-size-exceeds-item".into());
+                        }
+                    }
+                }
+                let d2 = data.clone();
+                match no_panic(move || message_decode(&d2)) {
+                    None => {
+                        stats.bump("rdec.panic");
+                        out.push("!MON C06 decode-panic".into());
+                        out.push("panic".into());
+                    }
+                    Some(Ok(m)) => {
+                        stats.bump(&format!("rdec.ok.{}", kind_of(&m)));
+                        for v in strict_violations(&data) {
+                            out.push(format!("!MON C06 {v}"));
+                        }
+                        if let Some(clause) = forbidden_value(&m) {
+                            out.push(format!("!MON C06 {clause} decoded-value"));
+                        }
+                        if let Message::Response(Response { body: ResponseBody::Nodes { nodes, .. }, .. }) = &m {
+                            if nodes.iter().any(|e| !e.verify()) {
+                                out.push("!MON C06 accepted-invalid-record decoded-value".into());
+                            }
+                            stats.bump(&format!("rdec.ok.nodes.{}", nodes.len().min(9)));
+                        }
+                        // decoded values are well-formed, so they must survive another round trip
+                        let m2 = m.clone();
+                        match no_panic(move || message_decode(&message_encode(m2))) {
+                            Some(Ok(m3)) if m3 == m => {}
+                            Some(_) => out.push("!MON C06 reencode-roundtrip-mismatch".into()),
+                            None => out.push("!MON C06 reencode-panic".into()),
+                        }
+                        out.push(format!("ok {}", show_msg(&m)));
+                    }
+                    Some(Err(e)) => {
+                        stats.bump(&format!("rdec.err.{}", err_name(&e)));
+                        out.push(format!("err:{}", err_name(&e)));
+                    }
+                }
+            }
+            _ => out.push("bad-op".into()),
+        }
     }
 }
 
-pub fn gen_case(_rng: &mut Rng, _tier: &str, _profile: &str, _stats: &mut Stats) -> Vec<String> {
-    Vec::new()
+// ---------------------------------------------------------------------------------------------
+// generator
+
+fn rbytes(rng: &mut Rng, lo: u64, hi: u64) -> Vec<u8> {
+    let n = rng.range(lo, hi) as usize;
+    rng.bytes(n)
+}
+
+fn gen_id(rng: &mut Rng) -> Vec<u8> {
+    let n = match rng.below(12) {
+        0 => 0,
+        1 => 1,
+        2 | 3 => 8,
+        4 => 9,
+        _ => rng.below(9) as usize,
+    };
+    let mut id = rng.bytes(n);
+    if n == 1 && rng.chance(1, 2) {
+        id[0] &= 0x7f; // single byte below 0x80: encoded without a header
+    }
+    id
+}
+
+fn gen_u64(rng: &mut Rng) -> u64 {
+    match rng.below(10) {
+        0 => 0,
+        1 => 127,
+        2 => 128,
+        3 => u64::MAX,
+        4 => 255,
+        5 => 256,
+        6 => 1 << (8 * rng.range(1, 7)),
+        7 => (1 << (8 * rng.range(1, 7))) - 1,
+        _ => rng.next() >> rng.below(64),
+    }
+}
+
+fn gen_port(rng: &mut Rng) -> u16 {
+    match rng.below(8) {
+        0 => 1,
+        1 => 65535,
+        2 => 127,
+        3 => 128,
+        4 => 255,
+        5 => 256,
+        _ => rng.range(1, 65535) as u16,
+    }
+}
+
+fn gen_ip(rng: &mut Rng, stats: &mut Stats) -> (char, Vec<u8>) {
+    match rng.below(12) {
+        0 | 1 | 2 => ('4', rng.bytes(4)),
+        3 => {
+            stats.bump("gen.ip.v6-mapped");
+            let mut b = vec![0u8; 10];
+            b.extend_from_slice(&[0xff, 0xff]);
+            b.extend(rng.bytes(4));
+            ('6', b)
+        }
+        4 => {
+            stats.bump("gen.ip.v6-compatible");
+            let mut b = vec![0u8; 12];
+            b.extend(rng.bytes(4));
+            ('6', b)
+        }
+        5 => {
+            stats.bump("gen.ip.v6-loopback");
+            let mut b = vec![0u8; 16];
+            b[15] = 1;
+            ('6', b)
+        }
+        6 => ('6', vec![0u8; 16]),
+        7 => {
+            // near misses of the folding rule
+            stats.bump("gen.ip.v6-near-mapped");
+            let mut b = vec![0u8; 12];
+            b.extend(rng.bytes(4));
+            match rng.below(5) {
+                0 => b[10] = 0xff,
+                1 => b[11] = 0xff,
+                2 => {
+                    b[10] = 0xff;
+                    b[11] = 0xfe;
+                }
+                3 => {
+                    let i = rng.below(10) as usize;
+                    b[i] = 1 << rng.below(8);
+                    b[10] = 0xff;
+                    b[11] = 0xff;
+                }
+                _ => {
+                    let i = rng.below(10) as usize;
+                    b[i] = 1 << rng.below(8);
+                }
+            }
+            ('6', b)
+        }
+        8 => {
+            let mut b = vec![0u8; 16];
+            b[15] = rng.below(3) as u8;
+            b[14] = rng.below(2) as u8;
+            ('6', b)
+        }
+        _ => ('6', rng.bytes(16)),
+    }
+}
+
+fn gen_payload(rng: &mut Rng, tier: &str) -> Vec<u8> {
+    let n = match rng.below(14) {
+        0 => 0,
+        1 => 1,
+        2 => 55,
+        3 => 56,
+        4 => 255,
+        5 => 256,
+        6 => 1200,
+        7 => {
+            if tier == "thorough" || rng.chance(1, 8) {
+                65536 + rng.below(300) as usize
+            } else {
+                300
+            }
+        }
+        8 => 54,
+        _ => rng.below(120) as usize,
+    };
+    let mut p = rng.bytes(n);
+    if n == 1 {
+        match rng.below(3) {
+            0 => p[0] = 0x7f,
+            1 => p[0] = 0x80,
+            _ => {}
+        }
+    }
+    p
+}
+
+fn gen_distance(rng: &mut Rng, allow_bad: bool) -> u64 {
+    match rng.below(14) {
+        0 => 0,
+        1 => 1,
+        2 => 127,
+        3 => 128,
+        4 => 255,
+        5 | 6 => 256,
+        7 if allow_bad => 257,
+        8 if allow_bad => match rng.below(3) {
+            0 => 65535,
+            1 => u64::MAX,
+            _ => 256 + rng.below(1000),
+        },
+        _ => rng.below(257),
+    }
+}
+
+/// A message in op syntax; mostly well-formed, sometimes with a field value the decoder has to
+/// reject (9-byte id, distance above 256).
+fn gen_msg(rng: &mut Rng, tier: &str, stats: &mut Stats) -> String {
+    let id = hx(&gen_id(rng));
+    match rng.below(6) {
+        0 => format!("ping:{id}:{}", gen_u64(rng)),
+        1 => {
+            let (fam, ip) = gen_ip(rng, stats);
+            format!("pong:{id}:{}:{fam}:{}:{}", gen_u64(rng), hx(&ip), gen_port(rng))
+        }
+        2 => {
+            let n = match rng.below(8) {
+                0 => 0,
+                1 => 1,
+                2 => 3,
+                3 => 28, // payload around the 55/56 header boundary
+                4 => 60,
+                _ => rng.below(12) as usize,
+            };
+            let bad = rng.chance(1, 8);
+            let ds: Vec<String> = (0..n).map(|_| gen_distance(rng, bad).to_string()).collect();
+            format!("findnode:{id}:{}", show_list(ds))
+        }
+        3 => {
+            let n = match rng.below(8) {
+                0 | 1 => 0,
+                2 => 1,
+                3 => 8,
+                _ => rng.below(9) as usize,
+            };
+            stats.bump(&format!("gen.nodes.records.{n}"));
+            let recs: Vec<String> = (0..n).map(|_| hx(&alloy_rlp::encode(&random_enr(rng).1))).collect();
+            format!("nodes:{id}:{}:{}", gen_u64(rng), show_list(recs))
+        }
+        4 => {
+            let proto = match rng.below(5) {
+                0 => Vec::new(),
+                1 => vec![rng.below(256) as u8],
+                2 => b"utp".to_vec(),
+                _ => rbytes(rng, 0, 23),
+            };
+            format!("talkreq:{id}:{}:{}", hx(&proto), hx(&gen_payload(rng, tier)))
+        }
+        _ => format!("talkresp:{id}:{}", hx(&gen_payload(rng, tier))),
+    }
+}
+
+/// Alternative (mostly invalid) encodings of an unsigned integer.
+fn mutate_uint(rng: &mut Rng, v: u64, stats: &mut Stats) -> Vec<u8> {
+    let canon = mini::uint(v);
+    match rng.below(6) {
+        0 => {
+            // leading zero byte
+            stats.bump("gen.mut.leading-zero");
+            let mut t: Vec<u8> = v.to_be_bytes().iter().skip_while(|x| **x == 0).cloned().collect();
+            t.insert(0, 0);
+            let mut o = mini::header(false, t.len());
+            o.extend(t);
+            o
+        }
+        1 if v < 0x80 => {
+            stats.bump("gen.mut.wrapped-single-byte");
+            vec![0x81, v as u8]
+        }
+        2 => {
+            // long form for a short string
+            stats.bump("gen.mut.long-form-short");
+            let t: Vec<u8> = v.to_be_bytes().iter().skip_while(|x| **x == 0).cloned().collect();
+            let mut o = vec![0xb8, t.len() as u8];
+            o.extend(t);
+            o
+        }
+        3 => {
+            // nine bytes: overflow
+            let mut o = vec![0x89];
+            o.extend(rng.bytes(9));
+            o
+        }
+        4 => vec![0x00],
+        _ => {
+            // a list where a string is expected
+            let mut o = vec![0xc0 + (canon.len() as u8).min(55)];
+            o.extend(&canon);
+            o
+        }
+    }
+}
+
+/// A message on the wire as its encoded fields, so that single fields can be replaced.
+struct Wire {
+    ty: u8,
+    fields: Vec<Vec<u8>>,
+}
+
+impl Wire {
+    fn assemble(&self) -> Vec<u8> {
+        let payload: Vec<u8> = self.fields.concat();
+        let mut v = vec![self.ty];
+        v.extend(mini::list(&payload));
+        v
+    }
+}
+
+fn nodes_field(recs: &[Vec<u8>]) -> Vec<u8> {
+    mini::list(&recs.concat())
+}
+
+/// Hand-built messages whose field values no Rust value can carry (zero port, IP lengths, …) and
+/// field-level mutations of valid messages.
+fn gen_wire(rng: &mut Rng, tier: &str, stats: &mut Stats) -> Vec<u8> {
+    let id = gen_id(rng);
+    let idf = mini::bytes(&id);
+    match rng.below(6) {
+        0 => {
+            // PING with an alternative integer encoding
+            let v = gen_u64(rng);
+            let f = if rng.chance(1, 2) { mutate_uint(rng, v, stats) } else { mini::uint(v) };
+            Wire { ty: 1, fields: vec![idf, f] }.assemble()
+        }
+        1 => {
+            // PONG: ip length and port boundaries
+            let iplen = match rng.below(10) {
+                0 => 0,
+                1 => 3,
+                2 => 5,
+                3 => 15,
+                4 => 17,
+                5 | 6 => 16,
+                _ => 4,
+            };
+            stats.bump(&format!("gen.pong.iplen.{iplen}"));
+            let ip = if iplen == 16 { gen_ip(rng, stats).1 } else { rng.bytes(iplen) };
+            let ip = if ip.len() == 4 && iplen == 16 { rng.bytes(16) } else { ip };
+            let port: Vec<u8> = match rng.below(10) {
+                0 | 1 => {
+                    stats.bump("gen.pong.port-zero");
+                    mini::uint(0)
+                }
+                2 => vec![0x00],
+                3 => vec![0x82, 0x00, 0x00],
+                4 => vec![0x83, 0x01, 0x00, 0x00], // 65536: overflows u16
+                5 => { let p = gen_port(rng) as u64; mutate_uint(rng, p, stats) },
+                _ => mini::uint(gen_port(rng) as u64),
+            };
+            let mut fields = vec![idf, mini::uint(gen_u64(rng)), mini::bytes(&ip), port];
+            if rng.chance(1, 10) {
+                fields.push(mini::uint(rng.below(300))); // one field too many
+            } else if rng.chance(1, 10) {
+                fields.pop();
+            }
+            Wire { ty: 2, fields }.assemble()
+        }
+        2 => {
+            // FINDNODE: distances at the cap, alternative encodings, nesting
+            let n = rng.below(6) as usize;
+            let mut inner = Vec::new();
+            for _ in 0..n {
+                let d = gen_distance(rng, true);
+                if rng.chance(1, 6) {
+                    inner.extend(mutate_uint(rng, d, stats));
+                } else {
+                    inner.extend(mini::uint(d));
+                }
+            }
+            let list = match rng.below(8) {
+                0 => mini::bytes(&inner), // a string instead of the list
+                1 => {
+                    let mut l = mini::list(&inner);
+                    l.extend(mini::uint(gen_distance(rng, true))); // distance outside the list
+                    l
+                }
+                _ => mini::list(&inner),
+            };
+            Wire { ty: 3, fields: vec![idf, list] }.assemble()
+        }
+        3 => {
+            // NODES: record boundaries and list nesting
+            let n = rng.below(5) as usize;
+            let mut recs: Vec<Vec<u8>> = (0..n).map(|_| alloy_rlp::encode(&random_enr(rng).1)).collect();
+            let total = mini::uint(gen_u64(rng));
+            let m = rng.below(12);
+            stats.bump(&format!("gen.nodes.mut.{m}"));
+            let mut fields = vec![idf, total];
+            match m {
+                0 if n > 0 => {
+                    // corrupt one byte of one record (signature / content no longer match)
+                    let r = rng.below(n as u64) as usize;
+                    let i = rng.range(3, recs[r].len() as u64 - 1) as usize;
+                    recs[r][i] ^= 1 << rng.below(8);
+                    fields.push(nodes_field(&recs));
+                }
+                1 if n > 0 => {
+                    // truncate the last record, keeping all enclosing lengths consistent
+                    let r = n - 1;
+                    let k = rng.range(1, recs[r].len() as u64 - 1) as usize;
+                    recs[r].truncate(k);
+                    fields.push(nodes_field(&recs));
+                }
+                2 => {
+                    // inner list header announces less than what follows inside the outer list
+                    let all = recs.concat();
+                    let cut = if n > 0 { recs[..rng.below(n as u64) as usize].concat().len() } else { 0 };
+                    let mut f = mini::header(true, cut);
+                    f.extend(all);
+                    fields.push(f);
+                }
+                3 => {
+                    // inner header is a string header
+                    let all = recs.concat();
+                    let mut f = mini::header(false, all.len());
+                    f.extend(all);
+                    fields.push(f);
+                }
+                4 => {
+                    // junk between / after the records
+                    let mut all = recs.concat();
+                    all.extend(rbytes(rng, 1, 4));
+                    fields.push(mini::list(&all));
+                }
+                5 if n > 0 => {
+                    // a record wrapped in a second list
+                    let r = rng.below(n as u64) as usize;
+                    recs[r] = mini::list(&recs[r]);
+                    fields.push(nodes_field(&recs));
+                }
+                6 if n > 0 => {
+                    // a record whose own header is re-written in long form / with another length
+                    let r = rng.below(n as u64) as usize;
+                    if let Some((_, hl, pl)) = mini::split(&recs[r]) {
+                        let body = recs[r][hl..].to_vec();
+                        let mut nr = match rng.below(3) {
+                            0 => mini::header(true, pl + 1),
+                            1 => mini::header(true, pl.saturating_sub(1)),
+                            _ => vec![0xf9, 0x00, pl as u8],
+                        };
+                        nr.extend(body);
+                        recs[r] = nr;
+                    }
+                    fields.push(nodes_field(&recs));
+                }
+                7 => {
+                    // records directly in the outer list, no inner list
+                    for r in &recs {
+                        fields.push(r.clone());
+                    }
+                }
+                8 => {
+                    // a string item among the records
+                    let mut all = recs.concat();
+                    all.extend(mini::bytes(&rbytes(rng, 0, 39)));
+                    fields.push(mini::list(&all));
+                }
+                9 => {
+                    // an oversized record (> 300 bytes) with an otherwise plausible shape
+                    let mut all = recs.concat();
+                    all.extend(mini::list(&rng.bytes(301)));
+                    fields.push(mini::list(&all));
+                }
+                _ => fields.push(nodes_field(&recs)),
+            }
+            if rng.chance(1, 12) {
+                fields.push(mini::uint(rng.below(200)));
+            }
+            Wire { ty: 4, fields }.assemble()
+        }
+        4 => {
+            // TALKREQ / TALKRESP with missing or extra fields, list-typed fields
+            let p = gen_payload(rng, tier);
+            let mut fields = vec![idf, mini::bytes(&rbytes(rng, 0, 5)), mini::bytes(&p)];
+            let ty = if rng.chance(1, 2) { 5 } else { 6 };
+            match rng.below(5) {
+                0 => {
+                    fields.pop();
+                }
+                1 => fields.push(mini::bytes(&rng.bytes(2))),
+                2 => fields[1] = mini::list(&[]),
+                _ => {}
+            }
+            Wire { ty, fields }.assemble()
+        }
+        _ => {
+            // the id field itself: lengths around 8, list-typed, wrapped single byte
+            let n = *rng.pick(&[0usize, 1, 7, 8, 9, 10, 32, 56]);
+            let idb = rng.bytes(n);
+            let idf = match rng.below(6) {
+                0 => mini::list(&idb),
+                1 if n == 1 => vec![0x81, idb[0] & 0x7f],
+                _ => mini::bytes(&idb),
+            };
+            stats.bump(&format!("gen.id.len.{n}"));
+            Wire { ty: 1, fields: vec![idf, mini::uint(gen_u64(rng))] }.assemble()
+        }
+    }
+}
+
+/// Byte-level mutations of an encoding.
+fn mutate_bytes(rng: &mut Rng, mut d: Vec<u8>, stats: &mut Stats) -> Vec<u8> {
+    let m = rng.below(12);
+    stats.bump(&format!("gen.bytemut.{m}"));
+    match m {
+        0 => {
+            let n = rng.below(d.len() as u64 + 1) as usize;
+            d.truncate(n);
+        }
+        1 => {
+            d.pop();
+        }
+        2 => d.extend(rbytes(rng, 1, 3)),
+        3 => d.push(0),
+        4 if d.len() > 1 => {
+            // outer list length off by one (short form) / any byte of the header
+            d[1] = d[1].wrapping_add(if rng.chance(1, 2) { 1 } else { 0xff });
+        }
+        5 if d.len() > 2 => {
+            // re-write the outer header in long form: non-canonical for payloads < 56, or with a
+            // leading zero in the length
+            if let Some((true, hl, pl)) = mini::split(&d[1..]) {
+                let body = d[1 + hl..].to_vec();
+                let mut n = vec![d[0]];
+                match rng.below(3) {
+                    0 => n.extend([0xf8, pl as u8]),
+                    1 => n.extend([0xf9, (pl >> 8) as u8, pl as u8]),
+                    _ => n.extend([0xfa, 0, (pl >> 8) as u8, pl as u8]),
+                }
+                n.extend(body);
+                d = n;
+            }
+        }
+        6 if !d.is_empty() => {
+            let i = rng.below(d.len() as u64) as usize;
+            d[i] ^= 1 << rng.below(8);
+        }
+        7 if !d.is_empty() => {
+            let i = rng.below(d.len().min(6) as u64) as usize;
+            d[i] = rng.below(256) as u8;
+        }
+        8 if !d.is_empty() => {
+            d[0] = *rng.pick(&[0u8, 1, 2, 3, 4, 5, 6, 7, 0x80, 0xc0, 0xff]);
+        }
+        9 if d.len() > 3 => {
+            // drop one byte from the middle
+            let i = rng.range(1, d.len() as u64 - 1) as usize;
+            d.remove(i);
+        }
+        10 if d.len() > 3 => {
+            // duplicate one byte in the middle
+            let i = rng.range(1, d.len() as u64 - 1) as usize;
+            let b = d[i];
+            d.insert(i, b);
+        }
+        _ => {}
+    }
+    d
+}
+
+pub fn gen_case(rng: &mut Rng, tier: &str, _profile: &str, stats: &mut Stats) -> Vec<String> {
+    let mut ops = Vec::new();
+    // 1. structured stream: encode a message value, decode its reference encoding
+    for _ in 0..5 {
+        let msg = gen_msg(rng, tier, stats);
+        ops.push(format!("renc {msg}"));
+        stats.bump("gen.renc");
+        if let Some(m) = parse_msg(&msg) {
+            let enc = ref_encode(&m);
+            ops.push(rdec_line(&enc));
+            stats.bump("gen.rdec.valid");
+            // every valid encoding also seeds the mutation stream
+            if rng.chance(2, 3) {
+                let mutated = mutate_bytes(rng, enc, stats);
+                ops.push(rdec_line(&mutated));
+                stats.bump("gen.rdec.bytemut");
+            }
+        }
+    }
+    // 2. hand-built wire messages with boundary / invalid field encodings
+    for _ in 0..5 {
+        let w = gen_wire(rng, tier, stats);
+        let w = if rng.chance(1, 5) { mutate_bytes(rng, w, stats) } else { w };
+        ops.push(rdec_line(&w));
+        stats.bump("gen.rdec.wire");
+    }
+    // 3. raw byte strings
+    for _ in 0..2 {
+        let n = match rng.below(6) {
+            0 => 0,
+            1 => 2,
+            2 => 3,
+            _ => rng.below(60) as usize,
+        };
+        let mut d = rng.bytes(n);
+        if n > 0 && rng.chance(3, 4) {
+            d[0] = rng.range(1, 6) as u8;
+        }
+        if n > 1 && rng.chance(1, 2) {
+            d[1] = mini::header(true, n - 2)[0];
+        }
+        ops.push(rdec_line(&d));
+        stats.bump("gen.rdec.random");
+    }
+    ops
 }
